@@ -159,6 +159,20 @@ def c03_lifecycle(tr, out, snaps_by_market, exec_class="Simulated"):
             if s["complete"] and s["status"] != "VIOLATION" and frozen is None:
                 frozen = s["sm"]
             out.rule("frozen-matched")
+    # at most one operation per order is outstanding: an accepted request is executed once
+    nreq = collections.Counter((r["o"], r["kind"]) for r in tr.requests if r.get("result") is True and (r["kind"] != "PLACE" or r["execute"]))
+    seen_pkg = set()
+    neff = collections.Counter()
+    for e in tr.effects:
+        for o, pre in zip(e["orders"], e["pre"]):
+            # (a retry after a transport error re-executes the SAME package: counted once)
+            if pre != "VIOLATION" and (e["pid"], o) not in seen_pkg:
+                seen_pkg.add((e["pid"], o))
+                neff[(o, e["kind"])] += 1
+    for key, n in neff.items():
+        out.rule("one-operation")
+        if n > nreq.get(key, 0):
+            out.v("operation-executed-more-often-than-requested", {"kind": key[1], "exec": exec_class}, order=key[0], executed=n, requested=nreq.get(key, 0))
     # request guards
     for r in tr.requests:
         if r["kind"] == "PLACE" or r["before"] is None:
@@ -170,7 +184,7 @@ def c03_lifecycle(tr, out, snaps_by_market, exec_class="Simulated"):
         guard_ok = b["status"] == "EXECUTABLE" and b["bet_id"] is not None and compatible
         out.rule("request-guard")
         out.d("guard:%s:%s:%s:%s" % (r["kind"], b["status"], otype, "ok" if r.get("result") else r.get("exc", "refused")))
-        if r.get("result") is True and not guard_ok and "force" not in r["kw"]:
+        if r.get("result") is True and not guard_ok:  # (force skips the controls, never the order's own guards)
             out.v("request-accepted-in-wrong-state", {"kind": r["kind"], "status": b["status"], "otype": otype, "exec": exec_class}, request=r)
         if r.get("exc") in ("OrderUpdateError",):
             if not same_view(b, r["after"]):
@@ -832,6 +846,35 @@ def c10_limits(tr, out, case):
     for e in tr.status:
         seq_ms[e["seq"]] = tr.ticks[e["tick"]]["pt"] if e["tick"] >= 0 else None
     for r in tr.requests:
+        if r["kind"] == "PLACE" and r.get("result") is False and r["execute"] and not r["force"] and r.get("after"):
+            # never locked out: a placement refused for a cool-down or for the trade counters must really be inside the
+            # cool-down / at the limit according to the independent history (simulated clock)
+            msg = r["after"].get("violation_msg") or ""
+            key = (r["strategy"], tuple(r["lookup"]))
+            known = ctx_trades[key]
+            now = tr.ticks[r["tick"]]["pt"]
+            sp = strat.get(r["strategy"], {})
+            if not any(x in reused for x in known + [r["t"]]) and not r["trade_params"][2]:
+                reset_s, place_s, _ = r["trade_params"]
+                # the cool-down runs from the framework's own reset / place events on this runner context (a trade completed a second
+                # time restarts it, which only makes the framework stricter), measured on the SIMULATED clock
+                ev = [tr.ticks[c["tick"]]["pt"] for c in tr.ctx if c["ctx"] == r.get("ctx_id") and c["seq"] < r["seq"] and c["tick"] >= 0]
+                if "reset_elapsed_seconds" in msg and "strategy.validate_order" in msg:
+                    out.rule("refusal")
+                    resets = [tr.ticks[c["tick"]]["pt"] for c in tr.ctx if c["ctx"] == r.get("ctx_id") and c["kind"] == "reset" and c["seq"] < r["seq"] and c["tick"] >= 0]
+                    if not resets or (now - max(resets)) / 1000.0 >= reset_s + 1e-9:
+                        out.v("refused-although-cool-down-elapsed", {"which": "reset_seconds"}, request=_rq(r), msg=msg[:160], elapsed=None if not resets else (now - max(resets)) / 1000.0, reset_seconds=reset_s)
+                elif "placed_elapsed_seconds" in msg and "strategy.validate_order" in msg:
+                    out.rule("refusal")
+                    places = [tr.ticks[c["tick"]]["pt"] for c in tr.ctx if c["ctx"] == r.get("ctx_id") and c["kind"] == "place" and c["seq"] < r["seq"] and c["tick"] >= 0]
+                    if not places or (now - max(places)) / 1000.0 >= place_s + 1e-9:
+                        out.v("refused-although-cool-down-elapsed", {"which": "place_reset_seconds"}, request=_rq(r), msg=msg[:160], elapsed=None if not places else (now - max(places)) / 1000.0, place_reset_seconds=place_s)
+                elif "live_trade_count" in msg and "strategy.validate_order" in msg:
+                    out.rule("refusal")
+                    live_now = [x for x in known if trade_live_at(x, r["seq"])]
+                    if len(live_now) < sp.get("max_live_trade_count", 1e6):
+                        out.v("refused-although-live-slot-free", {}, request=_rq(r), msg=msg[:160], live=len(live_now), limit=sp.get("max_live_trade_count"))
+            continue
         if r["kind"] != "PLACE" or not r.get("result"):
             continue
         key = (r["strategy"], tuple(r["lookup"]))
@@ -1212,6 +1255,9 @@ def c02_requests(tr, out, exchange="Betfair", exec_class="Simulated"):
         elif r.get("result") is True and (kind != "PLACE" or r["execute"]):
             accepted[(r["o"], kind)] += 1
             out.rule("accepted")
+            if kind == "PLACE" and b is not None and b["in_blotter"]:
+                # forcing skips the controls but nothing else: an order that is already in the blotter cannot be placed again
+                out.v("placement-of-order-already-in-blotter-accepted", {"force": r["force"], "status": b["status"], "exec": exec_class}, request=_rq(r))
             out.d("c02acc:%s:%s" % (kind, r["force"]))
     sent = collections.Counter()
     for p in tr.packages:
